@@ -72,6 +72,11 @@ CHECKS.update({
    text="Bounded-exhaustive per function: TLC enumerates wholly known argument lists shaped for each function's domain and its edges (negative, fractional, out-of-range and infinite indices, sizes and steps; empty collections, duplicates, nulls, list/tuple and map/object forms) and compares every real result with the TLA+ reference (exact value and type, failure exactly where the reference rejects).",
    design_ref="DESIGN.md section 4 C13",
    note="flatten and setproduct, and argument lists needing type unification, are outside the reference (not judged). Trusted: harness projection, TLC."),
+ "C06": dict(
+   technique="TLA+ well-formedness invariant (Relations!WellFormed plus hook-level NodeOK) evaluated by TLC on every result value recorded while replaying the TLC-generated inputs of the constructor, conversion, standard-library and set families (all families in the thorough tier)",
+   text="Invariant over recorded executions: every value returned by a constructor, conversion, function, set operation (and, thorough, operation, unification, call protocol, traversal, decoder) during the bounded-exhaustive drivers of the other properties is projected twice - through every public accessor applicable to its type and through the build-tag hook cty.VerifInspect - and TLC evaluates WellFormed/NodeOK on it: payload shape and Go kind match the type, declared element/attribute types, arity, NFC strings and keys, sets free of marked or equal members with the declared element type in their rules, at most one marker layer, no optional-attribute annotations at any depth.",
+   design_ref="DESIGN.md section 4 C06",
+   note="Covers exactly the values the other drivers produce. Trusted: accessor-based projection, the read-only hook, TLC."),
 })
 
 NOT_APPLICABLE = {}
